@@ -343,7 +343,7 @@ Fixpoint insert_sorted (f : SField) (l : list SField) : list SField :=
 Definition sort_fields (l : list SField) : list SField := fold_left (fun acc f => insert_sorted f acc) l [].
 
 Definition is_null_variant (t : Tracer) : bool :=
-  match t with TUnknown _ => true | TPrim _ PNull => true | _ => false end.
+  match t with TPrim _ PNull => true | _ => false end.   (* an untyped payload (TUnknown) is data *)
 
 Definition path_join (path name : bytes) : bytes := path ++ [46%N] ++ name.
 
